@@ -813,20 +813,29 @@ impl ReCompiler {
                         max,
                         match_length,
                     )))
-                } else {
+                } else if min == 0 {
                     // otherwise need to match with nothing
                     Ok(Operation::from(Nothing))
+                } else {
+                    // a zero-length body that has to match at least once
+                    Ok(ret)
                 }
             } else {
                 Ok(Operation::from(Repeat::new(ret, min, max, true)))
             }
         } else if let Some(match_length) = ret.get_match_length() {
-            Ok(Operation::from(ReluctantFixed::new(
-                ret,
-                min,
-                max,
-                match_length,
-            )))
+            if match_length > 0 {
+                Ok(Operation::from(ReluctantFixed::new(
+                    ret,
+                    min,
+                    max,
+                    match_length,
+                )))
+            } else if min == 0 {
+                Ok(Operation::from(Nothing))
+            } else {
+                Ok(ret)
+            }
         } else {
             Ok(Operation::from(Repeat::new(ret, min, max, false)))
         }
